@@ -147,12 +147,23 @@ func (i *interpreter) injectivity(name string, app *smt.Term) {
 		if old.t == app {
 			continue
 		}
+		// the MTProto msg_key truncations are idealised as collision-free too:
+		// SHA-256 bytes 8..24 (v2), SHA-1 bytes 4..20 (v1)
+		win := func(t *smt.Term) *smt.Term {
+			switch t.W {
+			case 256:
+				return i.ctx.Extract(t, 191, 64)
+			case 160:
+				return i.ctx.Extract(t, 127, 0)
+			}
+			return t
+		}
 		if old.name == name {
 			if len(app.Args) == 1 && len(old.t.Args) == 1 {
-				i.addPC(i.ctx.Implies(i.ctx.Eq(app, old.t), i.ctx.Eq(app.Args[0], old.t.Args[0])))
+				i.addPC(i.ctx.Implies(i.ctx.Eq(win(app), win(old.t)), i.ctx.Eq(app.Args[0], old.t.Args[0])))
 			}
 		} else if old.t.W == app.W && sameAlg(old.name, name) {
-			i.addPC(i.ctx.Not(i.ctx.Eq(app, old.t)))
+			i.addPC(i.ctx.Not(i.ctx.Eq(win(app), win(old.t))))
 		}
 	}
 	i.ufApps = append(i.ufApps, ufApp{name, app})
